@@ -87,6 +87,19 @@ class ExcInstance(Val):
         self.name = name
 
 
+class Stub(Val):
+    """An object whose methods are given by assumed callee contracts (summaries): name -> impl(interp, args, kwargs).
+    Every Stub method used is an *assumed* contract of another property and is listed in the evidence."""
+
+    def __init__(self, name, methods=None, fields=None):
+        self.name = name
+        self.methods = dict(methods or {})
+        self.fields = dict(fields or {})
+
+    def __repr__(self):
+        return f"Stub<{self.name}>"
+
+
 class TypeRef(Val):
     """a type object used in isinstance / dtype arguments"""
 
@@ -304,6 +317,13 @@ class Interp:
             if ca is not None:
                 return ca
             raise PyRaise("AttributeError", f"type object '{obj.cls.name}' has no attribute '{name}'")
+        if isinstance(obj, Stub):
+            if name in obj.fields:
+                return obj.fields[name]
+            if name in obj.methods:
+                self.stats.setdefault("stub_methods", set()).add(f"{obj.name}.{name}")
+                return LibCallable(f"{obj.name}.{name}", obj.methods[name])
+            raise PyRaise("AttributeError", f"'{obj.name}' object has no attribute '{name}'")
         if isinstance(obj, SuperProxy):
             o = obj.obj
             cls = o.cls if isinstance(o, Obj) else o.cls
@@ -769,7 +789,41 @@ class Interp:
                     mutated.add(x.func.value.id)
                 elif isinstance(x, ast.Yield):
                     mutated.add("__yields__")
+        # a temporary bound to a view of X (t = X[...]) that is written to also writes X
+        alias = {}
+        for n in body:
+            for x in ast.walk(n):
+                if isinstance(x, ast.Assign) and len(x.targets) == 1 and isinstance(x.targets[0], ast.Name):
+                    base = x.value
+                    while isinstance(base, (ast.Subscript, ast.Attribute)):
+                        base = base.value
+                    if isinstance(base, ast.Name) and base is not x.value:
+                        alias[x.targets[0].id] = base.id
+        changed = True
+        while changed:
+            changed = False
+            for t, b in alias.items():
+                if t in mutated and b not in mutated:
+                    mutated.add(b)
+                    changed = True
         return names, mutated
+
+    def loop_locals(self, body, candidates):
+        """names that every iteration (re)binds by a plain top-level assignment before any use: temporaries of the
+        loop body, which carry nothing from one iteration to the next and need no havoc"""
+        seen_read, local = set(), set()
+        for stmt in body:
+            reads = {y.id for y in ast.walk(stmt) if isinstance(y, ast.Name) and isinstance(y.ctx, ast.Load)}
+            if isinstance(stmt, ast.Assign) and len(stmt.targets) == 1 and isinstance(stmt.targets[0], ast.Name):
+                nm = stmt.targets[0].id
+                if nm in candidates and nm not in seen_read and nm not in reads:
+                    local.add(nm)
+            seen_read |= reads
+            for y in ast.walk(stmt):
+                if isinstance(y, ast.Name) and isinstance(y.ctx, ast.Store) and not (
+                        isinstance(stmt, ast.Assign) and len(stmt.targets) == 1 and stmt.targets[0] is y):
+                    seen_read.add(y.id)     # bound in a nested / conditional position: not a plain temporary
+        return local
 
     def exec_for(self, st, frame: Frame):
         ctx = self.ctx
@@ -797,13 +851,19 @@ class Interp:
             raise Unsupported(f"loop #{ordinal} of {key[0]} over a symbolic-length sequence has no invariant")
         self.stats["loops_by_invariant"] += 1
         nz = zint(seq.length)
+        names, mutated = self.assigned_names(st.body)
+        target_names = {y.id for y in ast.walk(st.target) if isinstance(y, ast.Name)}
+        # values at loop entry (before havoc), for frame-style invariants "unchanged since entry"
+        if not hasattr(frame, "loop_entry"):
+            frame.loop_entry = {}
+        frame.loop_entry[ordinal] = {nm: self.entry_snapshot(frame.lookup(nm)) for nm in (names | mutated) if frame.lookup(nm) is not None}
+        frame.loop_seq = getattr(frame, "loop_seq", {})
+        frame.loop_seq[ordinal] = seq
         # 1. invariant holds on entry
         for nm, f in spec.inv(self, frame, z3.IntVal(0)):
             ctx.oblige(f"{key[0].split('::')[-1]}:loop{ordinal}:inv-init:{nm}", "inv-init", f)
-        names, mutated = self.assigned_names(st.body)
-        target_names = {y.id for y in ast.walk(st.target) if isinstance(y, ast.Name)}
         which = ctx.choice(2, f"loop{ordinal}@{st.lineno}:iteration/exit")
-        self.havoc(frame, (names | mutated) - target_names, spec)
+        self.havoc(frame, (names | mutated) - target_names - self.loop_locals(st.body, names | mutated), spec)
         ctx.havocked = True
         if which == 0:
             i = ctx.int("it")
@@ -846,6 +906,15 @@ class Interp:
 
     def exec_while(self, st, frame):
         raise Unsupported("while loop")
+
+    def entry_snapshot(self, v):
+        if isinstance(v, Mat):
+            return Mat(v.rows, v.cols, v.buf.fn, elem=v.elem)
+        if isinstance(v, Vec):
+            if v.items is not None and v.buf.writes == 0 and v.imap is None:
+                return Vec(v.length, kind=v.kind, elem=v.elem, items=list(v.items))
+            return Vec(v.length, snapshot(v), kind=v.kind, elem=v.elem)
+        return v
 
     def havoc(self, frame: Frame, names, spec=None):
         ctx = self.ctx
